@@ -85,13 +85,16 @@ def run(ctx):
     if "err" in box:
         raise box["err"]
     rv, _, _ = V.leg_v(ctx, "AuthReplayTrace", "AuthReplayTrace.cfg", robs, strip=("conc",), label="V-replay")
+    harness_bad = []
     for lineno, rules in rv:
         rec = V.read_line(robs, lineno)
         for rule in rules:
             if rule.startswith("HARNESS_"):
-                raise V.Machinery("replay probe: %s: %s" % (rule, json.dumps(rec)[:500]))
-            V.report(ctx, rule, rec, "%s acted on a signed request whose timestamp was %d s old (the same request had been accepted when it was %d s old): %s"
-                     % (rec["ep"], rec["age2"], rec["age1"], json.dumps(rec.get("conc"))[:400]), {"kind": "replay", "record": rec})
+                harness_bad.append("replay probe: %s: %s" % (rule, json.dumps(rec)[:500]))
+                continue
+            V.report(ctx, rule, rec, replay_text(rec), {"kind": "replay", "record": rec})
+    if harness_bad and not ctx.violations:
+        raise V.Machinery(harness_bad[0])
     ctx.cov["stale_replay_probes"] = box["s"]["executed"]
     x = s["extra"]
     ctx.say("cells: %d emitted, %d executed (%d distinct); acts %s; Location read as %s; targets %s" % (
@@ -134,6 +137,14 @@ def run(ctx):
     return V.finish(ctx, RULE_TEXT)
 
 
+def replay_text(rec):
+    if rec.get("ev") == "walk":
+        return ("a browser that brought /callback a state naming a nested redirect signed '%s' was, %d hop(s) later, handed an authorization code for it: %s"
+                % (rec["nested"], rec["hops"], json.dumps(rec.get("conc"))[:900]))
+    return ("%s acted on a signed request whose timestamp was %d s old (the same request had been accepted when it was %d s old): %s"
+            % (rec["ep"], rec["age2"], rec["age1"], json.dumps(rec.get("conc"))[:400]))
+
+
 def replay(ctx, path):
     rp = json.load(open(path))
     rec = rp["record"]
@@ -145,7 +156,8 @@ def replay(ctx, path):
         for lineno, rules in rv:
             r2 = V.read_line(robs, lineno)
             for rule in rules:
-                V.report(ctx, rule, r2, "%s acted on a signed request whose timestamp was %d s old" % (r2["ep"], r2["age2"]), {"kind": "replay", "record": r2})
+                if not rule.startswith("HARNESS_"):
+                    V.report(ctx, rule, r2, replay_text(r2), {"kind": "replay", "record": r2})
         print(open(robs).read())
         return V.finish(ctx, RULE_TEXT)
     one = os.path.join(ctx.scratch, "one.jsonl")
